@@ -406,25 +406,24 @@ func runNetRace(o Opts) error {
 		for w := 0; w < nOps; w++ {
 			k := 4
 			if w == 12 || w == 16 || w == 25 { // PutCard, SetTimeProfile, SetDoorPasscodes: many argument shapes
-				k = 30
+				k = 120
 			}
 			for j := 0; j < k; j++ {
 				shared = append(shared, genOp(rs, w, []uint32{405419896, 303986753, 201020304}[rs.Intn(3)], false))
 			}
 		}
-		for g := 0; g < 6; g++ {
-			wg.Add(1)
-			go func() {
-				defer wg.Done()
-				for _, oc := range shared {
-					func() {
-						defer func() { recover() }()
-						oc.Run(u)
-					}()
-				}
-			}()
+		for _, oc := range shared { // eight goroutines make the SAME call with the same argument values at the same moment
+			oc := oc
+			for g := 0; g < 8; g++ {
+				wg.Add(1)
+				go func() {
+					defer wg.Done()
+					defer func() { recover() }()
+					oc.Run(u)
+				}()
+			}
+			wg.Wait()
 		}
-		wg.Wait()
 	}
 	return nil
 }
